@@ -44,14 +44,20 @@ class BaseCurve(Intface_BaseCurve):
             return False
         if self.knotvector[-1] != other.knotvector[-1]:
             return False
-        if (self.ctrlpoints is None) ^ (other.ctrlpoints is None):
-            return False
+        if self.ctrlpoints is None or other.ctrlpoints is None:
+            if self.ctrlpoints is not None or other.ctrlpoints is not None:
+                return False
+            return self.knotvector == other.knotvector
+        if self.weights is not None or other.weights is not None:
+            numa, dena = self.fraction()
+            numb, denb = other.fraction()
+            return numa * denb == numb * dena
         newknotvec = self.knotvector | other.knotvector
         selfcopy = copy(self)
         selfcopy.knotvector = newknotvec
         othercopy = copy(other)
         othercopy.knotvector = newknotvec
-        for poi, qoi in zip(self.ctrlpoints, othercopy.ctrlpoints):
+        for poi, qoi in zip(selfcopy.ctrlpoints, othercopy.ctrlpoints):
             if norm(poi - qoi) > 1e-9:
                 return False
         return True
